@@ -733,6 +733,11 @@ impl QuorumSamplingStrategy for FaitAccompli2Sampler {
 
         // sample medium nodes (FA2 step)
         for (validator, probability) in &self.medium_nodes {
+            // never hand out more than `k` seats: floating-point rounding in the
+            // pre-processing can mark more medium nodes than there are seats left
+            if result.len() >= self.k {
+                break;
+            }
             if rng.random_bool(*probability) {
                 result.push(*validator);
             }
